@@ -73,7 +73,6 @@ def eventOfJson (j : Json) : Except String Event := do
   | "resume" => pure (.resume (← j.getObjValAs? Nat "wf"))
   | "execute" => pure (.execute (← j.getObjValAs? Nat "t") (← j.getObjValAs? Bool "ok"))
   | "deliver" => do pure (.deliver (← itemOfJson (← j.getObjVal? "item")))
-  | "lose" => do pure (.lose (← itemOfJson (← j.getObjVal? "item")))
   | _ => throw s!"bad event {k}"
 
 def infoStr : Info → String
